@@ -709,12 +709,12 @@ fn gen_error_item(
             p.sig.push("err:missing-include".into());
         }
         2 if rng.chance(1, 3) => {
-            b.head("", "-", "-TXTPP#run printf x; kill -KILL $$".to_string(), false, false);
+            b.head("", "-", "-TXTPP#run printf x; kill -KILL $$".to_string(), true, true); // a following line must not merge into the command
             p.add_cmd("printf x; kill -KILL $$", vec![Act { kind: "lit", arg: "x".into() }, Act { kind: "fail", arg: String::new() }]);
             p.sig.push("err:cmd-killed-by-signal".into());
         }
         2 => {
-            b.head("", "-", "-TXTPP#run exit 3".to_string(), false, false);
+            b.head("", "-", "-TXTPP#run exit 3".to_string(), true, true);
             p.add_cmd("exit 3", vec![Act { kind: "fail", arg: String::new() }]);
             p.sig.push("err:cmd-fails".into());
         }
